@@ -428,6 +428,80 @@ fn gdb_sample(pid: u32) -> Vec<String> {
     res
 }
 
+/// Run the proof monitors under Miri (nomt-core only; the nomt crate cannot run under Miri
+/// because of io_uring/mmap/flock). Undefined behaviour reported by Miri is a violation.
+fn miri_phase(seed: u64) -> (Rep, Vec<String>, Vec<String>) {
+    let mut rep = Rep::default();
+    let mut violations = Vec::new();
+    let mut inconclusive = Vec::new();
+    let harness = Path::new(VERIF_DIR).join("harness");
+    // build once so that the parallel runs below only take the build lock briefly
+    let build = Command::new("cargo")
+        .args(["+nightly", "miri", "run", "--offline", "-p", "nvcore", "--bin", "miri_proofs", "--", "0", "0", "0", "0"])
+        .current_dir(&harness)
+        .env("MIRIFLAGS", "-Zmiri-permissive-provenance")
+        .env("CARGO_NET_OFFLINE", "true")
+        .stdout(Stdio::null())
+        .stderr(Stdio::piped())
+        .output();
+    match build {
+        Ok(o) if o.status.success() => {}
+        Ok(o) => {
+            inconclusive.push(format!("miri build/run failed: {}", String::from_utf8_lossy(&o.stderr).lines().rev().take(3).collect::<Vec<_>>().join(" / ")));
+            return (rep, violations, inconclusive);
+        }
+        Err(e) => {
+            inconclusive.push(format!("miri not available: {e}"));
+            return (rep, violations, inconclusive);
+        }
+    }
+    let procs = 16u64;
+    let per = 3u64;
+    let handles: Vec<_> = (0..procs)
+        .map(|p| {
+            let harness = harness.clone();
+            std::thread::spawn(move || {
+                let out = Command::new("timeout")
+                    .args(["1500", "cargo", "+nightly", "miri", "run", "--offline", "-p", "nvcore", "--bin", "miri_proofs", "--"])
+                    .args([seed.to_string(), (p * per).to_string(), per.to_string(), "6".to_string()])
+                    .current_dir(&harness)
+                    .env("MIRIFLAGS", "-Zmiri-permissive-provenance")
+                    .env("CARGO_NET_OFFLINE", "true")
+                    .output();
+                (p, out)
+            })
+        })
+        .collect();
+    for h in handles {
+        let (p, out) = h.join().unwrap();
+        match out {
+            Ok(o) => {
+                let stdout = String::from_utf8_lossy(&o.stdout);
+                let stderr = String::from_utf8_lossy(&o.stderr);
+                if o.status.success() {
+                    if let Some(line) = stdout.lines().rev().find(|l| l.starts_with('{')) {
+                        if let Ok(v) = serde_json::from_str::<Value>(line) {
+                            rep.merge(Rep::from_json(&v));
+                            rep.feat("miri_processes_completed", 1);
+                            continue;
+                        }
+                    }
+                    inconclusive.push(format!("miri shard {p}: no report line"));
+                } else if stderr.contains("Undefined Behavior") || stderr.contains("error: unsupported operation") && stderr.contains("nomt_core") {
+                    let msg: String = stderr.lines().filter(|l| l.contains("error") || l.contains("-->")).take(4).collect::<Vec<_>>().join(" | ");
+                    violations.push(format!("MIRI shard {p} (cases {}..{}): {msg}", p * per, p * per + per));
+                } else if o.status.code() == Some(124) {
+                    inconclusive.push(format!("miri shard {p}: time limit (watchdog)"));
+                } else {
+                    inconclusive.push(format!("miri shard {p}: exit {:?}: {}", o.status.code(), stderr.lines().rev().take(2).collect::<Vec<_>>().join(" / ")));
+                }
+            }
+            Err(e) => inconclusive.push(format!("miri shard {p}: {e}")),
+        }
+    }
+    (rep, violations, inconclusive)
+}
+
 #[derive(Clone)]
 struct Known {
     property: String,
@@ -508,6 +582,17 @@ pub fn cmd_check(args: &[String]) -> ExitCode {
             inconclusive.push(format!("case {ci}: {h}"));
         }
     }
+    if id == "C18" && tier == "thorough" && std::env::var("NV_NO_MIRI").is_err() {
+        let (mrep, mviol, minc) = miri_phase(seed);
+        let mevals: u64 = mrep.evals.values().sum();
+        rep.feat("miri_objects_and_queries_interpreted", mevals);
+        // findings under Miri (panics caught by the monitors) count like native ones
+        rep.merge(mrep);
+        for v in mviol {
+            crashed.push((0, v));
+        }
+        inconclusive.extend(minc);
+    }
     inconclusive.extend(rep.inconclusive.iter().cloned());
     let _ = std::fs::remove_dir_all(&scratch);
     let _ = std::fs::remove_dir_all(format!("/tmp/nv-ext4.{pid}"));
@@ -517,7 +602,13 @@ pub fn cmd_check(args: &[String]) -> ExitCode {
     for (ci, what) in &crashed {
         mine.push(Finding {
             prop: id.clone(),
-            sig: if what.starts_with("CONFIRMED-HANG") { "confirmed-hang".into() } else { "process-died".into() },
+            sig: if what.starts_with("CONFIRMED-HANG") {
+                "confirmed-hang".into()
+            } else if what.starts_with("MIRI") {
+                "miri-undefined-behaviour".into()
+            } else {
+                "process-died".into()
+            },
             detail: what.clone(),
             case_seed: case_seeds(&check, tier, seed, *ci)[0].0,
             op_index: 0,
